@@ -22,6 +22,8 @@ use crate::board::zobrist::Zobrist;
 pub mod constants;
 mod precalculated;
 mod zobrist;
+#[cfg(inkayaku_verif)]
+pub mod verif;
 
 fn _construct_pgn_regex() -> Regex {
     #[allow(clippy::unwrap_used)]
